@@ -284,7 +284,11 @@ func (w *Workspace) buildIndexFromResolvedLocked() {
 	w.index.SetFileIndex(w.rootJournalPath, BuildFileIndexFromJournal(w.rootJournalPath, w.resolved.Primary))
 	w.updateIncludeEdgesLocked(w.rootJournalPath, nil, w.index.FileIndex(w.rootJournalPath).Includes)
 
-	for path, journal := range w.resolved.Files {
+	for _, path := range w.resolved.FileOrder {
+		journal, ok := w.resolved.Files[path]
+		if !ok {
+			continue
+		}
 		w.index.SetFileIndex(path, BuildFileIndexFromJournal(path, journal))
 		w.updateIncludeEdgesLocked(path, nil, w.index.FileIndex(path).Includes)
 	}
